@@ -70,6 +70,29 @@ fn parse_of(build: &Value) -> Value {
 }
 
 /// C02/C03/C04/C07/C09/C10: construct from the abstract packet, serialise both ways, parse both back
+/// a writer whose write() takes a single byte per call
+pub struct OneByte(pub Vec<u8>);
+impl std::io::Write for OneByte {
+    fn write(&mut self, b: &[u8]) -> std::io::Result<usize> {
+        if b.is_empty() {
+            return Ok(0);
+        }
+        self.0.push(b[0]);
+        Ok(1)
+    }
+    fn flush(&mut self) -> std::io::Result<()> {
+        Ok(())
+    }
+}
+fn chunk_out(p: &Packet) -> Value {
+    let mut w = OneByte(vec![]);
+    match guarded(|| p.write_to(&mut w)) {
+        Ok(Ok(())) => json!(["ok", w.0]),
+        Ok(Err(e)) => json!(["err", format!("{e:?}")]),
+        Err(at) => json!(["panic", at]),
+    }
+}
+
 pub fn roundtrip_event(cls: &str, pkt: &Value) -> Result<Value, String> {
     let p = construct_packet(pkt)?;
     // the event carries the projection of what was actually constructed (checked against the request)
@@ -81,7 +104,8 @@ pub fn roundtrip_event(cls: &str, pkt: &Value) -> Result<Value, String> {
     let comp = build_out(&p, true);
     let pp = parse_of(&plain);
     let pc = parse_of(&comp);
-    Ok(json!({"ev": "RoundTrip", "cls": cls, "pkt": projected, "plain": plain, "comp": comp, "pp": pp, "pc": pc}))
+    let chunk = chunk_out(&p);
+    Ok(json!({"ev": "RoundTrip", "cls": cls, "pkt": projected, "plain": plain, "comp": comp, "pp": pp, "pc": pc, "chunk": chunk}))
 }
 
 /// the same for a packet that was NOT constructed from an abstract value by the generic constructor but
@@ -92,7 +116,8 @@ pub fn roundtrip_of_packet(cls: &str, p: &Packet) -> Value {
     let comp = build_out(p, true);
     let pp = parse_of(&plain);
     let pc = parse_of(&comp);
-    json!({"ev": "RoundTrip", "cls": cls, "pkt": projected, "plain": plain, "comp": comp, "pp": pp, "pc": pc})
+    let chunk = chunk_out(p);
+    json!({"ev": "RoundTrip", "cls": cls, "pkt": projected, "plain": plain, "comp": comp, "pp": pp, "pc": pc, "chunk": chunk})
 }
 
 /// Packets whose records come from the convenience constructors of the crate (every way of making a TXT,
